@@ -45,10 +45,11 @@ type x3Park struct {
 }
 
 type x3Gates struct {
-	mu     sync.Mutex
-	parked []*x3Park
-	count  map[string]int
-	open   bool
+	mu       sync.Mutex
+	parked   []*x3Park
+	count    map[string]int
+	open     bool
+	lastResp map[string]time.Time // timed part: when a follower last received a replication response
 }
 
 var (
@@ -69,6 +70,9 @@ func x3Hook(name, id string, stop <-chan struct{}) {
 func (g *x3Gates) hook(name, id string, stop <-chan struct{}) {
 	g.mu.Lock()
 	g.count[name+"|"+id]++
+	if g.lastResp != nil && name == "follower.response_received" {
+		g.lastResp[id] = time.Now()
+	}
 	if g.open || name == "leader.request_handled" || name == "follower.notified" {
 		g.mu.Unlock()
 		return
@@ -164,8 +168,9 @@ type x3Report struct {
 }
 
 var (
-	x3RepMu   sync.Mutex
-	x3Reports []x3Report
+	x3RepMu    sync.Mutex
+	x3Reports  []x3Report
+	x3ReportAt []time.Time
 )
 
 func x3Trace(ev string, fields ...interface{}) {
@@ -178,6 +183,7 @@ func x3Trace(ev string, fields ...interface{}) {
 	}
 	x3RepMu.Lock()
 	x3Reports = append(x3Reports, x3Report{F: req.Replica, L: req.Leader, e: req.LeaderEpoch})
+	x3ReportAt = append(x3ReportAt, time.Now())
 	x3RepMu.Unlock()
 }
 
@@ -201,6 +207,7 @@ type x3Kit struct {
 	deadIso  map[string]int64
 	deadMute bool
 	stuck    string
+	timed    *x3Timing // timed part: real timers of the servers
 }
 
 func (k *x3Kit) rank(e uint64) int64 {
@@ -212,11 +219,18 @@ func (k *x3Kit) rank(e uint64) int64 {
 	return 0
 }
 
+type x3Timing struct{ idle, fetch, timeout time.Duration }
+
 func (k *x3Kit) x3Server(id string) *Server {
 	s := k.newServer(id)
 	s.config.Clustering.ReplicaMaxIdleWait = 10 * time.Hour
 	s.config.Clustering.ReplicaMaxLeaderTimeout = x3LeaderTimeout
 	s.config.Clustering.ReplicaFetchTimeout = x3FetchTimeout
+	if k.timed != nil {
+		s.config.Clustering.ReplicaMaxIdleWait = k.timed.idle
+		s.config.Clustering.ReplicaMaxLeaderTimeout = k.timed.timeout
+		s.config.Clustering.ReplicaFetchTimeout = k.timed.fetch
+	}
 	// the follower "is" the metadata leader of its own (un-started) server: a report is handled locally
 	// (one witness out of two followers never reaches the quorum, nothing is proposed)
 	rn := &raftNode{}
@@ -285,6 +299,33 @@ func (k *x3Kit) pos(f string) string {
 		return "idle"
 	}
 	return "await"
+}
+
+// createOpen: as create, for the timed part (gates open: nothing parks)
+func (k *x3Kit) createOpen() {
+	for _, id := range k.ids {
+		k.srv[id] = k.x3Server(id)
+		k.hwDisk[id] = -1
+		k.isr[id] = true
+	}
+	k.leader = x3Leader
+	op := k.commit(&proto.RaftLog{
+		Op: proto.Op_CREATE_STREAM,
+		CreateStreamOp: &proto.CreateStreamOp{Stream: &proto.Stream{
+			Name: k.stream, Subject: k.subject, CreationTimestamp: time.Now().UnixNano(),
+			Partitions: []*proto.Partition{{
+				Subject: k.subject, Stream: k.stream, Id: 0, ReplicationFactor: int32(len(k.ids)),
+				Replicas: append([]string{}, k.ids...), Isr: append([]string{}, k.ids...), Leader: x3Leader,
+			}},
+		}},
+	})
+	k.lepoch = op.idx
+	k.epochs = []uint64{op.idx}
+	for _, id := range k.ids {
+		if err := k.applyTo(id, op, false); err != nil {
+			k.t.Fatalf("create on %s: %v", id, err)
+		}
+	}
 }
 
 func (k *x3Kit) create() {
@@ -461,7 +502,7 @@ func (k *x3Kit) takeReports(f string) []x3Report {
 			rest = append(rest, r)
 		}
 	}
-	x3Reports = rest
+	x3Reports, x3ReportAt = rest, nil
 	return out
 }
 
@@ -613,6 +654,7 @@ func (k *x3Kit) step(tw *vTraceWriter, id int, step map[string]interface{}) {
 		}
 		c0 := k.g.cnt("replicator.loop_top", f)
 		r0 := k.g.cnt("follower.response_received", f)
+		before := k.state()
 		k.g.release(ps[0])
 		k.waitFor("replicator-done-"+f, func() bool { return k.g.cnt("replicator.loop_top", f) > c0 })
 		if s := k.srv[x3Leader]; s != nil {
@@ -627,8 +669,13 @@ func (k *x3Kit) step(tw *vTraceWriter, id int, step map[string]interface{}) {
 			k.waitFor("response-"+f, func() bool {
 				return k.g.cnt("follower.response_received", f) > r0 || k.curAt("follower.before_wait", f) != nil
 			})
-			if k.g.cnt("follower.response_received", f) == r0 {
-				k.sync(tw, id)
+			if k.g.cnt("follower.response_received", f) == r0 && k.lastRel[f] == "request" {
+				// the timeout came first (the answer went to an inbox nobody listens to any more): its line
+				// shows the state projected just before the replicator was released, with the loop where it is now
+				k.timedOut(f)
+				before.Lp[f] = "prewait"
+				tw.Emit(x3Event{T: id, A: "FTimeout", Args: map[string]interface{}{"f": f, "w": "cur"}, St: before,
+					Obs: map[string]interface{}{"rp": k.takeReports(f), "late": k.lateClass(f, k.tSend[f]), "stole": false}})
 			}
 		}
 		k.armReplicator(f)
